@@ -1,7 +1,9 @@
 (* Props/C01.v — conversions preserve the tensor. Only statements, `exact`, Print Assumptions. *)
 From Coq Require Import List Arith Bool ZArith Ring.
 From PV Require Import Base.Index Base.Perm Base.Sum Np.Array Model.Sparse Model.Repr Model.C07Ops Model.C01Conv
-  Proofs.C01Proofs Proofs.C01Kruskal Proofs.C01Tucker.
+  Model.C01Unique Model.C01Coo Model.C01Ttm Proofs.C01Proofs Proofs.C01Kruskal Proofs.C01Tucker Proofs.C01Unique
+  Proofs.C01Converse Proofs.C01Coo Proofs.C01Ttm.
+From Coq Require Import Permutation.
 Import ListNotations.
 
 Section C01.
@@ -168,3 +170,194 @@ Example C01_example_tucker :
   den_dense 0%Z (ttensor_full 0%Z Z.add Z.mul Tk) [2; 1; 3] = den_t 0%Z 1%Z Z.add Z.mul Tk [2; 1; 3] /\
   den_t 0%Z 1%Z Z.add Z.mul Tk [2; 1; 3] = 245%Z.
 Proof. repeat split; reflexivity. Qed.
+
+(* ---------------------------------------------------------------------------------------------------------
+   Second wave: the constructors behind the matricised holders (Model/C01Unique.v), the converse direction, the scipy
+   views / from_array (Model/C01Coo.v), and pyttb's own ttm route inside ttensor.full (Model/C01Ttm.v). *)
+Section C01deep.
+Variable V : Type.
+Variables (v0 v1 : V) (vadd vmul vsub : V -> V -> V) (vopp : V -> V) (isz : V -> bool).
+Hypothesis Vring : ring_theory v0 v1 vadd vmul vsub vopp (@eq V).
+Hypothesis isz_spec : forall v, isz v = true <-> v = v0.
+
+(* np.unique(axis=0) + accumarray(sum) + nonzero of sptenmat.__init__ (insertion into a sorted accumulator): rows come out
+   strictly increasing in (row, col) order, hence pairwise distinct; no zero value is kept; every position denotes the SUM
+   of the values given for it; distinct zero-free input is only reordered; strictly sorted zero-free input is unchanged *)
+Theorem C01_unique : forall (M : sptenmat V) k, length (stm_subs M) = length (stm_vals M) ->
+  Forall (fun rc => length rc = k) (stm_subs M) ->
+  let M' := stm_norm vadd isz M in
+  stm_r M' = stm_r M /\ stm_c M' = stm_c M /\ stm_tshape M' = stm_tshape M /\
+  length (stm_subs M') = length (stm_vals M') /\
+  ssorted (stm_subs M') /\ NoDup (stm_subs M') /\
+  Forall (fun v => isz v = false) (stm_vals M') /\
+  (forall rc, In rc (stm_subs M') -> In rc (stm_subs M)) /\
+  (forall rc, den_sp v0 (stm_sp M') rc = vsum_at v0 vadd rc (stm_entries V M)) /\
+  (NoDup (stm_subs M) -> Forall (fun v => isz v = false) (stm_vals M) ->
+     Permutation (stm_entries V M') (stm_entries V M) /\ forall rc, den_sp v0 (stm_sp M') rc = den_sp v0 (stm_sp M) rc) /\
+  (ssorted (stm_subs M) -> Forall (fun v => isz v = false) (stm_vals M) -> M' = M).
+Proof. exact (stm_norm_correct V v0 v1 vadd vmul vsub vopp isz Vring isz_spec). Qed.
+
+(* sptensor.to_sptenmat WITH the constructor (what pyttb stores): strictly sorted triples; for a well-formed sparse tensor a
+   reordering of the per-entry images, nnz kept, the same array (also through full()), and back to an equivalent tensor *)
+Theorem C01_sptenmat_sorted : forall (S : sparse V) r c, is_perm (r ++ c) (length (sshape S)) ->
+  Forall (fun j => inb (sshape S) j = true) (ssubs S) -> length (ssubs S) = length (svals S) ->
+  exists M0 M, to_sptenmat S r c = Some M0 /\ to_sptenmat_sorted vadd isz S r c = Some M /\ M = stm_norm vadd isz M0 /\
+    stm_r M = r /\ stm_c M = c /\ stm_tshape M = sshape S /\ ssorted (stm_subs M) /\ wf_sp isz (stm_sp M) /\
+    (forall rc, den_sp v0 (stm_sp M) rc = vsum_at v0 vadd rc (stm_entries V M0)) /\
+    (wf_sp isz S ->
+       Permutation (stm_entries V M) (stm_entries V M0) /\ length (stm_subs M) = nnz S /\
+       (forall i, inb (sshape S) i = true -> den_sptenmat v0 M i = den_sp v0 S i) /\
+       (forall i, inb (sshape S) i = true -> den_tenmat v0 (sptenmat_full v0 M) i = den_sp v0 S i) /\
+       let B := sptenmat_to_sptensor M in
+       wf_sp isz B /\ sshape B = sshape S /\ nnz B = nnz S /\ forall i, den_sp v0 B i = den_sp v0 S i).
+Proof. exact (to_sptenmat_sorted_correct V v0 v1 vadd vmul vsub vopp isz Vring isz_spec). Qed.
+
+(* tenmat.__init__ (argument checks transliterated as tm_ctor): what an accepted call guarantees ... *)
+Theorem C01_tenmat_guard : forall (D : dense V) rd cd ts M, wf_dense D -> tm_ctor (Some D) rd cd ts = CtorOk M ->
+  wf_dense (tm_data M) /\ ddata (tm_data M) = ddata D /\ length (dshape (tm_data M)) = 2 /\
+  (length (dshape D) = 2 -> tm_data M = D) /\
+  is_perm (tm_r M ++ tm_c M) (length (tm_tshape M)) /\ size (dshape (tm_data M)) = size (tm_tshape M) /\
+  gather_wrap_dims (length (tm_tshape M)) rd cd None = Some (tm_r M, tm_c M) /\
+  (forall t, ts = Some t -> tm_tshape M = t) /\ (ts = None -> tm_tshape M = dshape (tm_data M)).
+Proof. exact (@tm_ctor_sound V). Qed.
+
+(* ... and the converse of C01_tenmat: every tenmat that passes the constructor checks converts back (to_tensor) to a
+   well-formed tensor of shape tshape whose matricisation along the same modes has the same data list, reports
+   (prod tshape[r], prod tshape[c]), and IS the object whenever its data matrix has that shape (the constructor compares
+   only the element count: known finding C19-N11) *)
+Theorem C01_tenmat_converse : forall (D : dense V) rd cd ts M, wf_dense D -> tm_ctor (Some D) rd cd ts = CtorOk M ->
+  let T := tenmat_to_tensor v0 M in
+  wf_dense T /\ dshape T = tm_tshape M /\ is_perm (tm_r M ++ tm_c M) (length (tm_tshape M)) /\
+  exists M', to_tenmat v0 T (tm_r M) (tm_c M) = Some M' /\ tm_r M' = tm_r M /\ tm_c M' = tm_c M /\
+    tm_tshape M' = tm_tshape M /\ dshape (tm_data M') = tm_rc M /\ ddata (tm_data M') = ddata (tm_data M) /\
+    (dshape (tm_data M) = tm_rc M -> M' = M) /\
+    (forall i, inb (tm_tshape M) i = true -> den_tenmat v0 M' i = den_dense v0 T i) /\
+    tenmat_to_tensor v0 M' = T.
+Proof. exact (tm_ctor_converse v0). Qed.
+
+(* sptenmat.__init__ (stm_ctor): accepts every in-bounds triple list along a mode partition; an accepted call had one *)
+Theorem C01_sptenmat_guard :
+  (forall subs vals r c ts, is_perm (r ++ c) (length ts) ->
+     Forall (fun rc => inb [size (pick 0 r ts); size (pick 0 c ts)] rc = true) subs ->
+     stm_ctor vadd isz (Some subs) (Some vals) (Some r) (Some c) ts = Some (stm_norm vadd isz (mkSTM subs vals r c ts))) /\
+  (forall subs vals rd cd ts M, stm_ctor vadd isz subs vals rd cd ts = Some M ->
+     (rd = None /\ cd = None /\ subs = None /\ vals = None /\ M = mkSTM [] [] [] [] []) \/
+     exists r c, gather_wrap_dims (length ts) rd cd None = Some (r, c) /\ is_perm (r ++ c) (length ts) /\
+       Forall (fun rc => nth 0 rc 0 < size (pick 0 r ts) /\ nth 1 rc 0 < size (pick 0 c ts)) (olist subs) /\
+       M = stm_norm vadd isz (mkSTM (olist subs) (olist vals) r c ts)).
+Proof. exact (conj (stm_ctor_accepts V vadd isz) (stm_ctor_sound V vadd isz)). Qed.
+
+(* the converse of C01_sptenmat: every sptenmat that passes the constructor checks (subs an nnz x 2 array, vals nnz values)
+   is strictly sorted and well-formed, denotes the per-position sums of the given values, and converts back (to_sptensor)
+   to a well-formed sparse tensor of shape tshape whose to_sptenmat — with or without the constructor's sorting — is that
+   very object *)
+Theorem C01_sptenmat_converse : forall subs vals rd cd ts M, stm_ctor vadd isz subs vals rd cd ts = Some M ->
+  rd <> None \/ cd <> None -> length (olist subs) = length (olist vals) -> Forall (fun rc => length rc = 2) (olist subs) ->
+  stm_tshape M = ts /\ is_perm (stm_r M ++ stm_c M) (length ts) /\
+  ssorted (stm_subs M) /\ wf_sp isz (stm_sp M) /\
+  (forall rc, den_sp v0 (stm_sp M) rc = vsum_at v0 vadd rc (combine (olist subs) (olist vals))) /\
+  let S := sptenmat_to_sptensor M in
+  wf_sp isz S /\ sshape S = ts /\ nnz S = length (stm_subs M) /\
+  to_sptenmat S (stm_r M) (stm_c M) = Some M /\ to_sptenmat_sorted vadd isz S (stm_r M) (stm_c M) = Some M /\
+  (forall i, inb ts i = true -> den_sp v0 S i = den_sptenmat v0 M i).
+Proof. exact (stm_ctor_converse V v0 v1 vadd vmul vsub vopp isz Vring isz_spec). Qed.
+
+(* scipy views: for distinct in-bounds positions the coo matrix (toarray sums repeated positions) is the scatter *)
+Theorem C01_spmatrix : forall S : sparse V, length (sshape S) = 2 -> length (ssubs S) = length (svals S) -> NoDup (ssubs S) ->
+  Forall (fun rc => inb (sshape S) rc = true) (ssubs S) ->
+  exists C, spmatrix S = Some C /\ coo_shape C = sshape S /\ coo_toarray v0 vadd C = full v0 S /\
+    forall rc, den_coo v0 vadd C rc = den_sp v0 S rc.
+Proof. exact (spmatrix_correct V v0 v1 vadd vmul vsub vopp Vring). Qed.
+
+Theorem C01_sptenmat_double : forall M : sptenmat V, length (stm_subs M) = length (stm_vals M) -> NoDup (stm_subs M) ->
+  Forall (fun rc => inb (stm_shape M) rc = true) (stm_subs M) ->
+  coo_shape (stm_double M) = stm_shape M /\
+  coo_toarray v0 vadd (stm_double M) = tm_data (sptenmat_full v0 M) /\
+  forall rc, den_coo v0 vadd (stm_double M) rc = den_sp v0 (stm_sp M) rc.
+Proof. exact (stm_double_correct V v0 v1 vadd vmul vsub vopp Vring). Qed.
+
+Theorem C01_tenmat_double : forall M : tenmat V, tm_double M = tm_data M /\
+  forall i, den_dense v0 (tm_double M) (tm_pos (tm_tshape M) (tm_r M) (tm_c M) i) = den_tenmat v0 M i.
+Proof. exact (tm_double_correct V v0). Qed.
+
+(* sptenmat.from_array of a dense matrix / of a scipy matrix: the sptenmat denotes that matrix (a coo matrix denotes the
+   sums of its stored values) and satisfies everything C01_sptenmat_converse gives *)
+Theorem C01_from_array_dense : forall (A : dense V) R C rd cd ts M, wf_dense A -> dshape A = [R; C] ->
+  from_array_dense v0 vadd isz A rd cd ts = Some M -> rd <> None \/ cd <> None ->
+  (forall rc, den_sp v0 (stm_sp M) rc = den_dense v0 A rc) /\
+  exists subs vals, stm_converse_concl V v0 vadd isz subs vals ts M.
+Proof. exact (from_array_dense_correct V v0 v1 vadd vmul vsub vopp isz Vring isz_spec). Qed.
+
+Theorem C01_from_array_coo : forall (Cm : coo V) rd cd ts M, length (coo_subs Cm) = length (coo_data Cm) ->
+  Forall (fun rc => length rc = 2) (coo_subs Cm) ->
+  from_array_coo vadd isz Cm rd cd ts = Some M -> rd <> None \/ cd <> None ->
+  (forall rc, den_sp v0 (stm_sp M) rc = vsum_at v0 vadd rc (coo_entries Cm)) /\
+  (forall rc, inb (coo_shape Cm) rc = true -> den_sp v0 (stm_sp M) rc = den_coo v0 vadd Cm rc) /\
+  exists subs vals, stm_converse_concl V v0 vadd isz subs vals ts M.
+Proof. exact (from_array_coo_correct V v0 v1 vadd vmul vsub vopp isz Vring isz_spec). Qed.
+
+(* ttensor.full with a dense core as the code runs it: tensor.ttm (permute, F-reshape, matrix product, F-reshape, inverse
+   permute; Model/C02Dense.v) over the modes 0..N-1 is the subscript-level product of C01_tucker, hence den_t *)
+Theorem C01_tucker_impl : forall T : ttensor V, wf_dense (tcore T) -> length (dshape (tcore T)) = length (tfactors T) ->
+  ttensor_full_impl v0 vadd vmul T = ttensor_full v0 vadd vmul T /\
+  wf_dense (ttensor_full_impl v0 vadd vmul T) /\ dshape (ttensor_full_impl v0 vadd vmul T) = tshape T /\
+  forall i, den_dense v0 (ttensor_full_impl v0 vadd vmul T) i = den_t v0 v1 vadd vmul T i.
+Proof. exact (ttensor_full_impl_correct V v0 v1 vadd vmul vsub vopp Vring). Qed.
+End C01deep.
+
+Print Assumptions C01_unique.
+Print Assumptions C01_sptenmat_sorted.
+Print Assumptions C01_tenmat_guard.
+Print Assumptions C01_tenmat_converse.
+Print Assumptions C01_sptenmat_guard.
+Print Assumptions C01_sptenmat_converse.
+Print Assumptions C01_spmatrix.
+Print Assumptions C01_sptenmat_double.
+Print Assumptions C01_tenmat_double.
+Print Assumptions C01_from_array_dense.
+Print Assumptions C01_from_array_coo.
+Print Assumptions C01_tucker_impl.
+
+(* non-vacuity *)
+Example C01_example_unique :
+  (* rows given unsorted, (1,2) twice, (0,1) cancelling to zero: sorted, summed, the zero dropped *)
+  let M := mkSTM [[1; 2]; [0; 1]; [1; 0]; [1; 2]; [0; 1]] [5; 3; 7; 2; -3]%Z [0] [1] [2; 3] in
+  stm_norm Z.add (Z.eqb 0) M = mkSTM [[1; 0]; [1; 2]] [7; 7]%Z [0] [1] [2; 3] /\
+  stm_ctor Z.add (Z.eqb 0) (Some (stm_subs M)) (Some (stm_vals M)) (Some [0]) None [2; 3] = Some (stm_norm Z.add (Z.eqb 0) M) /\
+  stm_ctor Z.add (Z.eqb 0) (Some [[2; 0]]) (Some [1%Z]) (Some [0]) (Some [1]) [2; 3] = None /\
+  (* a sparse tensor stored in F order, matricised with rows = mode 1: pyttb stores the triples row-major *)
+  option_map (fun M => (stm_subs M, stm_vals M))
+    (to_sptenmat_sorted Z.add (Z.eqb 0) (mkSp [2; 3] [[1; 0]; [0; 1]; [1; 2]; [0; 2]] [5; 7; 9; 4]%Z) [1] [0])
+    = Some ([[0; 1]; [1; 0]; [2; 0]; [2; 1]], [5; 7; 4; 9]%Z).
+Proof. repeat split; reflexivity. Qed.
+
+Example C01_example_converse :
+  let D := mkDense [3; 8] (map Z.of_nat (seq 0 24)) in
+  (* accepted: rows = mode 1, columns = modes 2, 0 of a 2x3x4 tensor; converts back and forth to itself *)
+  (match tm_ctor (Some D) (Some [1]) (Some [2; 0]) (Some [2; 3; 4]) with
+   | CtorOk M => to_tenmat 0%Z (tenmat_to_tensor 0%Z M) [1] [2; 0] = Some M /\ den_dense 0%Z (tenmat_to_tensor 0%Z M) [1; 2; 3] = 23%Z
+   | _ => False end) /\
+  tm_ctor (Some D) (Some [1]) (Some [2; 1]) (Some [2; 3; 4]) = CtorReject /\
+  tm_ctor (Some D) (Some [1]) None (Some [2; 3; 5]) = CtorReject /\
+  tm_ctor (@None (dense Z)) None None None = CtorEmpty /\
+  (* the element-count check alone: an 8x3 matrix is accepted for a 3x8 split (C19-N11), and then M' <> M *)
+  (match tm_ctor (Some (mkDense [8; 3] (ddata D))) (Some [1]) (Some [2; 0]) (Some [2; 3; 4]) with
+   | CtorOk M => option_map (fun M' => dshape (tm_data M')) (to_tenmat 0%Z (tenmat_to_tensor 0%Z M) [1] [2; 0]) = Some [3; 8]
+   | _ => False end).
+Proof. repeat split; reflexivity. Qed.
+
+Example C01_example_coo :
+  let A := mkDense [2; 3] [0; 5; 7; 0; 0; 9]%Z in
+  option_map (fun M => (stm_subs M, stm_vals M)) (from_array_dense 0%Z Z.add (Z.eqb 0) A (Some [1]) (Some [0]) [3; 2])
+    = Some ([[0; 1]; [1; 0]; [1; 2]], [7; 5; 9]%Z) /\
+  option_map (fun M => (stm_subs M, stm_vals M))
+    (from_array_coo Z.add (Z.eqb 0) (mkCoo [2; 3] [[1; 2]; [0; 0]; [1; 2]; [0; 1]] [4; 0; 5; 7]%Z) (Some [0]) (Some [1]) [2; 3])
+    = Some ([[0; 1]; [1; 2]], [7; 9]%Z) /\
+  coo_toarray 0%Z Z.add (mkCoo [2; 3] [[1; 2]; [0; 0]; [1; 2]; [0; 1]] [4; 0; 5; 7]%Z) = mkDense [2; 3] [0; 0; 7; 0; 0; 9]%Z.
+Proof. repeat split; reflexivity. Qed.
+
+Example C01_example_tucker_impl :
+  let Tk := mkT (mkDense [2; 1; 2] [2; 3; 1; 4]%Z) [[[1; 2]; [3; 4]; [0; 5]]; [[5]; [7]]; [[1; 0]; [2; 1]; [0; 3]; [1; 1]]]%Z in
+  ttensor_full_impl 0%Z Z.add Z.mul Tk = ttensor_full 0%Z Z.add Z.mul Tk /\
+  den_dense 0%Z (ttensor_full_impl 0%Z Z.add Z.mul Tk) [2; 1; 3] = 245%Z.
+Proof. split; reflexivity. Qed.
